@@ -236,4 +236,167 @@ PROPS["C14"] = {
     "level_note": "Trusted: Lean kernel; extractor; harness. Member names with JSON-pointer or quoting metacharacters are outside the quantifier (the driver answers out-of-domain).",
 }
 
+
+def _steps(r):
+    st = r["model"].get("steps") if isinstance(r["model"], dict) else None
+    if st is None:
+        return "ood"
+    labs = r["case"].get("labels", [])
+    return "|".join(f"{labs[i] if i < len(labs) else '?'}={s.get('class')}" for i, s in enumerate(st))
+
+
+def _apply_property(r):
+    imp = r["impl"]
+    if not isinstance(imp, dict):
+        return None
+    if "earlier_version_changed" in imp:
+        return "apply/earlier-version-changed"
+    for s in imp.get("steps", []):
+        if s.get("mutated"):
+            return "apply/input-mutated"
+        if s.get("class") == "err" and s.get("nil_on_err") is False:
+            return "apply/state-returned-with-error"
+        if s.get("class") in ("panic", "killed"):
+            return "apply/" + s["class"]
+    return None
+
+
+_APPLIER_OBL = [
+    {"name": "Shape_Applier", "facts": ["skel_Apply", "skel_applyCreateOperation", "skel_applyUpdateOperation", "skel_applyDeactivateOperation",
+                                        "skel_applyRecoverOperation", "lit_applyCreateOperation", "lit_applyUpdateOperation",
+                                        "lit_applyDeactivateOperation", "lit_applyRecoverOperation"]},
+]
+_PARSER_FACTS = ["skel_Parse", "skel_ParseOperation", "skel_ParseCreateOperation", "skel_ValidateDelta", "skel_validateMultihash", "skel_validateDeltaSize",
+                 "skel_ValidateSuffixData", "skel_ParseUpdateOperation", "skel_ParseSignedDataForUpdate", "skel_validateUpdateRequest",
+                 "skel_validateSignedDataForUpdate", "skel_ParseRecoverOperation", "skel_ParseSignedDataForRecover", "skel_validateSignedDataForRecovery",
+                 "skel_parseSignedData", "skel_validateProtectedHeaders", "skel_validateSigningKey", "skel_validateCommitment", "skel_validateNonce",
+                 "skel_validateRecoverRequest", "skel_ParseDeactivateOperation", "skel_ParseSignedDataForDeactivate", "skel_validateDeactivateRequest",
+                 "skel_GetRevealValue", "skel_GetCommitment", "lit_Parse", "lit_ParseCreateOperation", "lit_ParseUpdateOperation",
+                 "lit_ParseRecoverOperation", "lit_ParseDeactivateOperation"]
+_PARSER_OBL = [{"name": "Shape_Parser", "facts": _PARSER_FACTS}]
+_JWS_FACTS = ["skel_ParseJWS", "skel_VerifyJWS", "skel_parseCompacted", "skel_parseCompactedPayload", "skel_parseCompactedHeaders", "skel_signingInput",
+              "skel_checkJWSHeaders", "skel_VerifySignature", "skel_verifyECSignature", "skel_verifyEd25519Signature", "skel_GetED25519PublicKey",
+              "skel_parseEllipticCurve"]
+_JWS_OBL = [{"name": "Shape_Jws", "facts": _JWS_FACTS}]
+_APPLY_TRUST = ["signature verdicts: the harness's own verifier (Go crypto/ecdsa, crypto/ed25519, btcec curve parameters) on the (key, signing input, signature) triple "
+                "the harness derives with its own framing code; the model derives the triple itself and only looks the verdict up"]
+
+PROPS["C01"] = {
+    "theorem_modules": ["Sidetree.Props.C01"],
+    "prescribes": "Sidetree.Props.C01.Spec.step (= Sidetree.Applier.apply by apply_eq_spec)",
+    "obligations": _APPLIER_OBL + _PARSER_OBL + [
+        {"name": "C09_anchorUntilParamApplier", "facts": ["anchorUntilParamApplier"]},
+        {"name": "C09_windowRefusals", "facts": ["windowUnsetGuard", "windowRefusals"]}],
+    "streams": [{"gen": "C01", "quick": 3000, "thorough": 150000}],
+    "property_check": _apply_property,
+    "label": _steps,
+    "nontrivial": lambda r: isinstance(r["model"], dict) and any(s.get("class") == "ok" for s in r["model"].get("steps", [])),
+    "shape": lambda r: [o["req"] for o in r["case"]["ops"]],
+    "rule": "histories of 1-8 real, signed operations (five key types, both hash algorithms, keys with and without nonce, anchor origins of every JSON type) built by the harness's own "
+            "operation builder; every position holds a valid operation or one labelled invalid one out of ~90 mutation kinds (signature, framing, payload, key, reveal value, delta, hash, "
+            "headers, commitments, window, sizes and configuration limits, malformed JSON, type confusion); histories that start with a non-create, contain a second create, "
+            "operations anchored under another type, and end at a deactivate; random anchoring tuples and pre-existing operation lists. After every step the class and all 15 state "
+            "fields are compared (nil vs empty distinguished). Non-trivial = at least one accepted step; distinct = distinct request bytes.",
+    "technique": "Lean 4 refinement theorem (staged code = rule table) and corollaries + go/ast shape obligations + differential correspondence on real signed histories",
+    "level_text": "Proved in Lean for every configuration, oracle, operation and state: Applier.apply (the staged mirror of the Go code that the driver runs against the implementation) equals "
+                  "the rule table Spec.step; from it: create needs an empty state, the others an existing one; refused keeps the state, accepted replaces it; resolution is a left fold "
+                  "(unbounded length); per type the complete bookkeeping table, the exact conditions under which update commitment and document are installed, update changes nothing "
+                  "else, deactivate clears commitments and sets the flag. The control skeleton and every ResolutionModel literal of operationapplier.go and the parser functions are "
+                  "regenerated from the Go AST on every run and must equal the reviewed ones.",
+    "level_note": "Trusted: Lean kernel; extractor; harness builder and verifier; Go's encoding/json struct decoding is modelled (exact-case names, no duplicate members) and validated by "
+                  "the stream. The signature verdict is an oracle.",
+    "trusted": _APPLY_TRUST,
+}
+
+PROPS["C02"] = {
+    "theorem_modules": ["Sidetree.Props.C02"],
+    "prescribes": "Sidetree.Props.C02.update_authorised / recover_authorised / deactivate_authorised",
+    "obligations": _APPLIER_OBL + _PARSER_OBL + _JWS_OBL,
+    "streams": [{"gen": "C02", "quick": 3000, "thorough": 150000}],
+    "property_check": _apply_property,
+    "label": _steps,
+    "nontrivial": lambda r: isinstance(r["model"], dict) and len(r["model"].get("steps", [])) == 2,
+    "shape": lambda r: [o["req"] for o in r["case"]["ops"]],
+    "rule": "create followed by one update / recover / deactivate, valid or tampered: signature bit flips, truncation, padding, 2/4 segments, bad base64, newline inside a segment, "
+            "payload field re-encoded without re-signing, payload whitespace, key substituted with and without re-signing (also with its own reveal value), reveal value of another "
+            "key / algorithm / malformed, delta substituted after signing, extra / missing / empty / none / non-string / not-allowed / other-key-type alg, headers that are not an object, "
+            "header segment respelled and signed over the spelled segment, curve not allowed, nonce sizes, missing key or key members, off-curve key. The verdict for the triple the "
+            "model derives comes from the harness's independent verifier. Non-trivial = both steps evaluated; distinct = distinct request bytes.",
+    "technique": "Lean 4 theorems by inversion of the parser/applier model + oracle signature verdicts + differential correspondence on tampered operations",
+    "level_text": "Proved in Lean: whenever apply accepts an update, recover or deactivate, its signed data is a compact JWS with a JSON-object header naming a non-empty allowed algorithm and "
+                  "nothing but alg/kid, the oracle accepts the signature for exactly (key inside the signed data, signature bytes, re-marshalled-header signing input), that key hashes to "
+                  "the reveal value; for update the delta hashes to the signed delta hash; for recover the installed recovery commitment and anchor origin are the signed ones and any "
+                  "content from the delta requires the hash; for deactivate the signed suffix equals the operation's. Unforgeability itself is the primitive's and is not claimed.",
+    "level_note": "Trusted: Lean kernel; extractor; harness; Go crypto as the oracle. 'Someone without the private key cannot produce a verifying signature' is ECDSA/EdDSA unforgeability.",
+    "trusted": _APPLY_TRUST,
+}
+
+PROPS["C03"] = {
+    "theorem_modules": ["Sidetree.Props.C03"],
+    "prescribes": "Sidetree.Parser.parse (Props.C03.create_self_certifying, suffix_binds, delta_binds)",
+    "obligations": _PARSER_OBL + [{"name": "C03_uniqueSuffix", "facts": ["uniqueSuffixCalls"]},
+                                  {"name": "C06_validCompare", "facts": ["isValidCompare", "isValidCalls"]}],
+    "streams": [{"gen": "C03", "quick": 3000, "thorough": 150000}],
+    "label": lambda r: _lab(r, r["model"].get("class")),
+    "nontrivial": lambda r: r["model"].get("class") == "ok",
+    "shape": lambda r: r["case"]["req"],
+    "rule": "create requests over all patch kinds, anchor origins of every JSON type, optional type, algorithm lists [18], [19], [18,19], [19,18] with the request hashed under the "
+            "first or the second; each in canonical form and two re-spellings (member order at every level, whitespace, escapes, number spellings), and with one field modified "
+            "(recovery commitment, anchor origin, type, delta with and without the matching hash). Compared: accept/reject, suffix, id, anchor origin, validator calls.",
+    "technique": "Lean 4 theorems (suffix formula, hash binding with explicit collision alternative, member-order invariance) + differential correspondence",
+    "level_text": "Proved in Lean: every accepted create has suffix = model multihash of the re-marshalled suffix data under the first configured algorithm, id = namespace:suffix, and outside "
+                  "batch mode a delta that validates against the recorded delta hash; equal suffixes force equal canonical suffix data, and equal delta hashes equal canonical deltas, or "
+                  "an explicit hash collision; the decoding of a create request does not depend on top-level member order. Invariance under whitespace/escape/number spelling of the "
+                  "text holds because the decoder reads the parsed value; nested member order rests on the stream.",
+    "level_note": "Trusted: Lean kernel; extractor; harness. SHA-2 collision resistance is not assumed (collision alternative).",
+}
+
+PROPS["C07"] = {
+    "theorem_modules": ["Sidetree.Props.C07"],
+    "prescribes": "Sidetree.Parser.parse (Props.C07.parse_ok_iff)",
+    "obligations": _PARSER_OBL + _JWS_OBL[:0] + [
+        {"name": "C09_anchorUntilParamParser", "facts": ["anchorUntilParamParser"]},
+        {"name": "C13_limits", "facts": ["maxIDLength", "maxServiceTypeLength", "idRegexp", "limitOps"]}],
+    "streams": [{"gen": "C07", "quick": 4000, "thorough": 200000}],
+    "label": lambda r: _lab(r, r["model"].get("class")),
+    "shape": lambda r: [r["case"]["req"], r["case"]["cfg"]],
+    "rule": "a valid request of each of the four types and, three times out of four, one labelled mutation per rule (~90 kinds), with the protocol configuration moved with the mutation: "
+            "limits set to the exact size and one below, an entry removed from the algorithm / curve / patch list, two hash algorithms, other nonce sizes; recording anchor-time and "
+            "anchor-origin validators that sometimes refuse. Compared: accept/reject, type, suffix, id, anchor origin, request bytes echoed, and the exact arguments both validators "
+            "received. All cases non-trivial (every request is parsed by both sides); distinct = distinct (request, configuration).",
+    "technique": "Lean 4 iff-theorems (accepted iff allowed, per type and overall) by inversion + go/ast shape obligations + differential correspondence",
+    "level_text": "Proved in Lean: Parser.parse accepts a request iff it is within the maximum operation size, decodes, names one of the four types and satisfies that type's acceptance "
+                  "predicate (Appendix B), whose conjuncts are themselves characterised: hashes (length limit and configured algorithm), delta (present, patches non-empty, each enabled "
+                  "and valid, commitment well-formed, canonical size within limit), signed data (compact JWS, allowed non-empty alg, only alg/kid, valid key on an allowed curve, nonce of "
+                  "the configured size), reveal value matching the key, fresh commitments, deactivate suffix; size boundaries; the returned operation carries type, suffix, namespaced id and "
+                  "anchor origin. The parser functions' control skeletons and result literals are tied to the Go AST by kernel-checked equalities.",
+    "level_note": "Trusted: Lean kernel; extractor; harness; encoding/json struct decoding modelled on its exact-case, duplicate-free domain.",
+}
+
+PROPS["C12"] = {
+    "theorem_modules": ["Sidetree.Props.C12"],
+    "prescribes": "Sidetree.Effects.disciplined_sound on Generated.prog_ApplyPatches / prog_Apply",
+    "obligations": [
+        {"name": "C12_effects", "facts": ["prog_ApplyPatches", "inputs_ApplyPatches", "prog_Apply", "inputs_Apply"]},
+        {"name": "C12_copyFirst", "facts": ["applyPatchesFirst", "deepCopyCalls"]},
+    ],
+    "streams": [{"gen": "C10", "quick": 3000, "thorough": 150000}, {"gen": "C01", "quick": 2000, "thorough": 100000}],
+    "compare": _strip({"deviation"}),
+    "property_check": lambda r: _apply_property(r) or ("compose/input-mutated" if r["impl"].get("input_mutated") or r["impl"].get("patches_mutated") else
+                                                       ("compose/document-returned-with-error" if r["impl"].get("nil_on_err") is False else None)),
+    "label": lambda r: r["kind"] + "/" + (str(r["model"].get("class")) if r["kind"] == "compose" else _steps(r)),
+    "shape": lambda r: r["case"].get("patches") or [o["req"] for o in r["case"].get("ops", [])],
+    "level": "proof",
+    "rule": "the C10 patch-list stream (documents x 1-6 patches incl. lists that fail at the k-th patch) and the C01 history stream; before every ApplyPatches / Apply call the harness "
+            "takes a deep JSON snapshot of every input (document at all depths, patch values, previous model incl. operation lists, anchored operation) and compares it afterwards; "
+            "every earlier state handed out is re-checked at the end of the history; on error the returned document/state must be nil. All cases non-trivial.",
+    "technique": "Lean 4 soundness theorem for an effect discipline + regenerated effect summaries decided by the kernel + runtime snapshots (partial)",
+    "level_text": "PARTIAL. Proved in Lean: a program of the effect IR that passes the may-alias analysis never writes to an object that existed on entry (induction over the program, any heap). "
+                  "The extractor regenerates the IR summaries of ApplyPatches and Apply (callees of the same file inlined, branches flattened) on every run and the kernel decides that "
+                  "they pass. Atomicity of failures is proved on the models. Aliasing introduced inside encoding/json or json-patch, and the effect of flattening branches, are not "
+                  "covered by the theorem; the snapshot comparison of the two streams covers them at run time.",
+    "level_note": "Trusted: Lean kernel; the extractor's translation of Go statements into the IR (views: ParsePublicKeys/ParseServices/StringArray/method calls return aliases of their "
+                  "receiver or first argument; other package-qualified calls return fresh values; sort.*/delete/copy write their first argument); harness snapshots.",
+}
+
 NOT_CLAIMED = {}
